@@ -309,14 +309,26 @@ func TestVerifC06Route(t *testing.T) {
 			data := []byte("final")
 			var X, Y peer.ID
 			var injected *pb.Message
+			// own publications also go through the batch API (gossipsub only): same recipients
+			viaBatch := router == "gossipsub" && c.Chance(0.3)
+			publish := func(po ...PubOpt) error {
+				if !viaBatch {
+					return topicOf(tn).Publish(context.Background(), data, po...)
+				}
+				var mb MessageBatch
+				if err := topicOf(tn).AddToBatch(context.Background(), &mb, data, po...); err != nil {
+					return err
+				}
+				return nd.ps.PublishBatch(&mb)
+			}
 			switch mode {
 			case "local":
-				if err := topicOf(tn).Publish(context.Background(), data); err != nil {
+				if err := publish(); err != nil {
 					c.Inconclusive("publish: %v", err)
 					return
 				}
 			case "localonly":
-				if err := topicOf(tn).Publish(context.Background(), data, WithLocalPublication(true)); err != nil {
+				if err := publish(WithLocalPublication(true)); err != nil {
 					c.Inconclusive("publish: %v", err)
 					return
 				}
